@@ -73,6 +73,16 @@ fn contexts() -> Vec<Ctx> {
         Ctx { name: "read <<<", script: "IFS= read -r r <<<\"$x\"; vargs \"$r\"", expect: |v| vrec(&[v.split('\n').next().unwrap_or("")]) },
         Ctx { name: "printf %s", script: "printf '%s' \"$x\"; echo", expect: |v| format!("{v}\n") },
         Ctx { name: "echo", script: "echo \"$x\"", expect: |v| if matches!(v, "-n" | "-e" | "-E" | "-ne" | "-en") { String::new() } else { format!("{v}\n") } },
+        // "$@" / "${a[@]}" glued to other pieces inside the same quotes: the first element joins what precedes,
+        // the last what follows, and no element is ever split or globbed again
+        Ctx { name: "\"x$@\"", script: "vargs \"x$@\"", expect: |v| { let f = format!("x{v}"); vrec(&[&f, v]) } },
+        Ctx { name: "\"$@y\"", script: "vargs \"$@y\"", expect: |v| { let l = format!("{v}y"); vrec(&[v, &l]) } },
+        Ctx { name: "\"x${a[@]}y\"", script: "vargs \"x${a[@]}y\"", expect: |v| { let f = format!("x{v}"); let l = format!("{v}y"); vrec(&[&f, &l]) } },
+        Ctx { name: "\"$x${a[@]}\"", script: "vargs \"$x${a[@]}\"", expect: |v| { let f = format!("{v}{v}"); vrec(&[&f, v]) } },
+        Ctx { name: "\"${a[@]}${a[@]}\"", script: "vargs \"${a[@]}${a[@]}\"", expect: |v| { let m = format!("{v}{v}"); vrec(&[v, &m, v]) } },
+        Ctx { name: "\"x${a[@]:1}\"", script: "vargs \"x${a[@]:1}\" \"${a[@]:0:1}z\"", expect: |v| { let f = format!("x{v}"); let l = format!("{v}z"); vrec(&[&f, &l]) } },
+        Ctx { name: "for i in \"x$@\"", script: "for i in \"x$@\"; do vargs \"$i\"; done", expect: |v| { let f = format!("x{v}"); format!("{}{}", vrec(&[&f]), vrec(&[v])) } },
+        Ctx { name: "b=(\"x${a[@]}\")", script: "b=(\"x${a[@]}\"); vargs \"${#b[@]}\" \"${b[0]}\" \"${b[1]}\"", expect: |v| { let f = format!("x{v}"); vrec(&["2", &f, v]) } },
         Ctx { name: "unquoted,set -f,IFS=''", script: "set -f; oIFS=$IFS; IFS=; vargs $x; IFS=$oIFS; set +f", expect: |v| if v.is_empty() { vrec(&[]) } else { vrec(&[v]) } },
     ]
 }
